@@ -7,6 +7,7 @@ from ..astq import (arg, canon, const, ext_names, handler_catches_all, handler_c
                     stmt_of, in_body)
 from ..cfg import CFG, any_call_may_raise
 from ..model import AnalysisError, Func, head, norm
+from . import roles
 from . import engine as E
 
 
@@ -45,7 +46,15 @@ def discover(m, er=None):
     if len(r.rewrite) != 1:
         raise AnalysisError("role REWRITE: expected one function below the registry application that removes edges")
     r.rewrite = r.rewrite[0]
-    r.bound_run = m.method("BoundCall", "run", "BOUNDCALL")
+    # BOUNDCALL: the method the run callback invokes with the node's function (`<bound call>.run(node.fn, retry)`)
+    cands = set()
+    for f_ in [r.runcb] + [g for g in m.reachable([r.runcb], kinds=("call",)) if g.parent is r.runcb or g.parent is r.prep_run]:
+        for c in f_.own_calls():
+            if any(isinstance(a_, ast.Attribute) and a_.attr == "fn" for a_ in c.args):
+                cands |= {g for g in m.callee_funcs(f_, c) if g.cls is not None}
+    if len(cands) != 1:
+        raise AnalysisError(f"role BOUNDCALL: expected one method invoked by the run callback with the node's function, found {sorted(g.qualname for g in cands)}")
+    r.bound_run = next(iter(cands))
     # the observer variable of run: the local assigned from `<progress>.observer()`
     ov = [nm for nm, bs in r.run.bindings.items() for k, e, p_ in bs if k == "assign" and isinstance(e, ast.Call)
           and isinstance(e.func, ast.Attribute) and e.func.attr == "observer"]
@@ -68,7 +77,8 @@ def rule_prune_before_execute(ctx, rid, r):
     g = CFG(run, may_raise=any_call_may_raise)
     execs = calls_to(m, run, r.run_physical)
     ctx.floor(rid, "execution call sites in run", len(execs), 1)
-    prune = m.one_func("prune_plan", "PRUNE")
+    from .prunerules import prune_role
+    prune = prune_role(m, r)
     pcalls = calls_to(m, run, prune)
     acalls = calls_to(m, run, r.apply)
     doms = set()
@@ -208,7 +218,48 @@ def rule_no_value_on_failure(ctx, rid, r):
 
 
 # ------------------------------------------------------------------------------------------------ C10.F1
-COERCIONS = {"coerce_worker_count", "coerce_max_errors", "_coerce_retry"}
+_COERCION_CACHE = {}
+
+
+def is_value_preserving_coercion(m, g, name):
+    """Is `x = g(x)` a harmless coercion of the forwarded setting?  Decided by evaluating g (whatever it is called):
+    a limit (max_workers, max_errors ...) - every integer the user may pass comes back unchanged;
+    retry - a user-supplied decorator comes back as the very object, and an integer n becomes a decorator under which a function
+    failing its first n - 1 attempts succeeds (n calls) and one failing n times raises (the retry loop itself is C10.F6)."""
+    from ..absval import AbsRaise, Interp, Stub
+    key = (id(m), g, name == "retry")
+    if key in _COERCION_CACHE:
+        return _COERCION_CACHE[key]
+    ok = False
+    try:
+        if g.cls is None and len([p for p in g.pos_params if p not in g.defaults]) == 1:
+            def run(v):
+                it = Interp(m, ext={"functools.wraps": lambda fn: (lambda h: h)}, stubs={"assert_is_instance": Stub("assert_is_instance", lambda *a, **k: None)})
+                return it, it.call_func(g, None, [v], {})
+            if name == "retry":
+                user = Stub("user_retry", lambda f: f)
+                ok = run(user)[1] is user
+                for n in (1, 3):
+                    for fails in (n - 1, n):
+                        calls = []
+
+                        def f(*a, **k):
+                            calls.append(1)
+                            if len(calls) <= fails:
+                                raise AbsRaise(ValueError(f"E{len(calls)}"))
+                            return "OK"
+                        it, dec = run(n)
+                        try:
+                            out = it.call(it.call(dec, [Stub("f", f)], {}), [], {})
+                        except AbsRaise:
+                            out = "RAISED"
+                        ok = ok and ((out == "OK" and len(calls) == n) if fails < n else (out == "RAISED" and len(calls) == n))
+            else:
+                ok = all(run(k)[1] == k and type(run(k)[1]) is int for k in (1, 2, 3, 17, 1000))
+    except (AbsRaise, AnalysisError):
+        ok = False
+    _COERCION_CACHE[key] = ok
+    return ok
 
 
 def _check_source_var(ctx, rid, m, f, name, hopname, fallback_params=()):
@@ -242,7 +293,7 @@ def _check_source_var(ctx, rid, m, f, name, hopname, fallback_params=()):
                 if is_name(v_, name):
                     continue  # keeps its value
                 if isinstance(v_, ast.Call) and len(v_.args) == 1 and is_name(v_.args[0], name) and not v_.keywords and \
-                        any(g.name in COERCIONS for g in m.callee_funcs(scope, v_) if v_ in scope.own_calls()):
+                        v_ in scope.own_calls() and (cg_ := m.callee_funcs(scope, v_)) and all(is_value_preserving_coercion(m, g, name) for g in cg_):
                     why = f"coercion {norm(v_)}"
                     continue
                 if isinstance(v_, ast.BoolOp) and isinstance(v_.op, ast.Or) and is_name(v_.values[0], name):
@@ -597,7 +648,7 @@ def rule_sentinel_priority(ctx, rid, r):
 # ------------------------------------------------------------------------------------------------ C17.K5
 def rule_observer_exit(ctx, rid, r):
     m = ctx.model
-    f = m.method("SimpleProgressObserver", "__exit__", "OBSERVER")
+    f = roles.simple_observer(m).methods["__exit__"]
     calls = f.own_calls()
     sets = [c for c in calls if isinstance(c.func, ast.Attribute) and c.func.attr == "set"]
     joins = [c for c in calls if isinstance(c.func, ast.Attribute) and c.func.attr == "join"]
